@@ -475,7 +475,7 @@ def gen_C05(rng, tier):
         c.query("USE x", [op_init_ok()], seq0=(seq + 128) % 256)
         c.quit(seq0=seq)
         out.append(c.build())
-    seqs = [0, 1, 2, 127, 128, 250, 253, 254, 255] if tier == "quick" else list(range(0, 256, 5)) + [254, 255]
+    seqs = [0, 1, 2, 127, 128, 250, 253, 254, 255] if tier == "quick" else sorted(set(list(range(0, 256, 5)) + [254, 255]))
     for seq in seqs:
         for n in (lens if tier != "quick" else [254, 255, 256, 257, 513]):
             c = Conv("C05-l%03d-%d" % (seq, n), mode=rng.choice(["lockstep", "pipelined"]))
@@ -519,7 +519,7 @@ def gen_C14(rng, tier):
             else:
                 c.execute(1, [], ops)
         # zero-column resultsets with k rows
-        for k in ([0, 1, 2, 3, 250, 251, 300] if tier == "quick" else [0, 1, 2, 250, 251, 252, 1000, 65536]):
+        for k in ([0, 1, 2, 3, 250, 251, 300] if tier == "quick" else [0, 1, 2, 250, 251, 252, 1000, 3000]):     # (65,536 and more rows: R4.c14_extra, one event each)
             if rng.random() < (0.25 if tier == "quick" else 0.5):
                 ops = [op_start([])]
                 for r in range(k):
